@@ -3,44 +3,80 @@ from common import LEAN_TB
 CFG = {'lean_modules': ['ObiVerif.Props.C04'],
  'gen': False,
  'thorough_seeds': 4,
- 'rule': 'cases = (writer, formatting workers 1..16, plain/gzip output, skip-empty flag, CSV column selection + NA value, annotation flavour, '
-         'paired files, arrival history of (batch number, record count, size class) chunks): corpus of drain-after-turn / empty-batch / late-batch-0 '
-         'histories, chunk sizes straddling the 4096-byte buffer of the output wrapper (small/LARGE/small, LARGE/small/LARGE, chunks of exactly '
-         '4094..4098 bytes) plain and compressed, 24 large batches through 16 and 5 workers, records with separators/quotes/CR/LF/leading blanks/'
-         'control characters/backslash-u in identifiers, keys and values (nested lists and maps), random permutations of up to 7 batches; thorough: '
-         'every permutation of n<=6 batches, every subset of empty batches of 5 batches, 1..16 workers; with one formatting worker the harness forces '
-         'the arrival order at the writer goroutine; non-trivial = distinct history with at least two chunks',
+ 'rule': 'cases = (writer, formatting workers 1..16, plain/gzip output, skip-empty flag, CSV column selection + NA value, annotation flavour, paired files, '
+         'pipeline stage pl (thorough), arrival history of (batch number, record count, size class) chunks): corpus of drain-after-turn / empty-batch / '
+         'late-batch-0 histories, chunk sizes straddling the 4096-byte buffer of the output wrapper (small/LARGE/small, LARGE/small/LARGE, chunks of exactly '
+         '4094..4098 bytes) plain and compressed, 24 large batches through 16 and 5 workers, records with separators/quotes/CR/LF/leading blanks/control '
+         'characters/backslash-u in identifiers, keys and values (nested lists and maps), integers at the boundaries of the decimal printer (0, ±9/10/99/100, '
+         '2^31, 2^53+1, min/max int64), paired output for the four writers (late batch 0, empty batches, 4 workers, gzip; with skip-empty: the two files fall '
+         'out of step, compared with the model only), random permutations of up to 7 batches; thorough: every permutation of n<=6 batches, every subset of '
+         'empty batches of 5 batches, 1..16 workers, and 14 streams per writer of 3..200 batches fed through a real pipeline stage of 2..16 worker goroutines '
+         '(MakeISliceWorker, arrival order left to the scheduler: ~75% of these runs reach the writer out of batch order), plain and compressed, 1..16 '
+         'formatting workers, some paired; with one formatting worker and no pipeline stage the harness forces the arrival order at the writer goroutine; '
+         'non-trivial = distinct history with at least two chunks',
  'technique': 'Lean 4 theorems on the re-sequencing writer machine composed with the model of the four per-batch formatters (every arrival permutation, every '
-              'set of empty batches, arbitrary field bytes) + byte-for-byte differential correspondence of the whole output (formatters included) with the real '
-              'writers driven in forced arrival orders, plain and gzip + independent re-sequencing / decode-back oracles (encoding/json, encoding/csv, line readers)',
- 'level_text': 'For every n, every arrival permutation of batches 0..n-1 and every subset of empty batches, proved in Lean on the model of formatters + writer: '
-               '(FASTA) the file is read back by the chunk parser of /repo (7-state machine + header parser, model of C02) as exactly the records of all batches in '
-               'order [fasta_file_reads_back]; (FASTQ) the file is the four-line records in batch order [fastq_file_is_records_in_order]; (CSV, n>=1) the file is the '
-               'header line once, first, then one row per record in order, and the model of encoding/csv Reader reads it back with every field unchanged up to the '
-               "reader's CRLF->LF, for arbitrary field bytes incl. quotes, commas, CR, LF, leading blanks [csv_file_reads_back, CsvRT.parse_csvRows]; (JSON) the file is "
-               "'[\\n' + the record texts joined by ',\\n' + '\\n]\\n', the empty array on empty input [json_file_is_array_of_record_texts, json_empty_input], and every "
-               'string literal written is a valid JSON string body denoting the string [json_string_wellformed]. The model (formatters included: FormatFastaBatch, '
-               'FormatFastqBatch, JSONRecord/FormatJSONBatch, CSVHeader/CSVRecord/FormatCVSBatch, csv.Writer quoting, %v) is tied to the real writers by comparing the '
-               'whole output byte for byte on every case, and the CSV reader model is compared with csv.Reader on every CSV output.',
- 'level_note': 'Proved for all inputs: re-sequencing (all permutations/empty sets), FASTA parse-back of the whole file, CSV header-once + full round trip through the reader '
-               'model, JSON array framing over the real record texts, JSON string escaping. NOT proved (tied by correspondence + decode-back oracle only): that the 12-state '
-               'FASTQ parser reads a *sequence* of written records back (single record: C02); that the indented text of a nested JSON value (objects/arrays/numbers/'
-               'indentation of jVal) is a JSON value — only string literals and the array framing are theorems, encoding/json decodes every output in the harness; that '
-               'CsvRead.parse equals encoding/csv Reader on inputs other than writer outputs. Not modelled: float attributes, invalid UTF-8 (goccy substitutes U+FFFD), '
-               'InterfaceToInt conversions of a non-int count/taxid, csv_auto column detection, the title-line annotation text of FASTA/FASTQ (FormatFastSeqJsonHeader is '
-               'data here, property C02), gzip (the harness decompresses the real output; order of bytes through Wfile/bufio/pgzip is checked by comparison only), the '
-               'second file of a paired output (oracle only: same identifiers in the same order). Goroutine liveness (Close protocol) is exercised under a watchdog, not proved. '
-               'The model of JSONRecord is the REPAIRED behaviour (notes/patches/C04-json-unescape-breaks-escapes.diff): the unrepaired code wrote raw control characters / '
-               'broke an escaped backslash followed by u (oracle json.invalid on the corpus cases with f=3).',
- 'trusted_base': LEAN_TB + ['title-line annotation text of FASTA/FASTQ (FormatFastSeqJsonHeader) taken as data (C02)',
- 'encoding/json and encoding/csv as decode-back oracles; compress/gzip to read the compressed output back',
- 'goccy/go-json MarshalIndent layout and key order as transcribed in WriterFmt.jVal (validated by byte comparison on every JSON case)'],
+              'set of empty batches, arbitrary field bytes), on the two-writer model of paired output, on the JSON reader (white-space stripper + decoder of '
+              'C02) and on the injectivity of the CSV text + byte-for-byte differential correspondence of the whole output (formatters included; both files of '
+              'a pair) with the real writers driven in forced arrival orders and through a scheduler-ordered multi-worker pipeline, plain and gzip + '
+              'comparison of the reader models with encoding/csv and encoding/json on every output + independent re-sequencing / decode-back oracles '
+              '(encoding/json, encoding/csv, line readers, mate of record i at position i of the second file)',
+ 'level_text': 'For every n, every arrival permutation of batches 0..n-1 and every subset of empty batches, proved in Lean on the model of formatters + '
+               'writer: (order) the outcome of a file does not depend on the arrival order, for every writer, option set and arbitrary records '
+               '[file_order_free]; (FASTA) the file is read back by the chunk parser of /repo (7-state machine + header parser, model of C02) as exactly the '
+               'records of all batches in order [fasta_file_reads_back]; (FASTQ) the file is the four-line records in batch order '
+               '[fastq_file_is_records_in_order] and is read back by the 12-state FASTQ chunk parser of /repo (model of C02) as exactly these records, '
+               'qualities as printed [fastq_file_reads_back]; (empty sequences) both outcomes explicit: with skip-empty or no empty sequence the file is the '
+               'records with a non-empty sequence in order, otherwise the formatter is fatal — fatal iff an empty sequence exists without skip-empty '
+               '[seq_file_outcomes, seq_file_fatal_iff, seq_file_skip_empty, fasta_file_reads_back_skipping]; (CSV, n>=1) the file is the header line once, '
+               "first, then one row per record in order, and the model of encoding/csv Reader reads it back with every field unchanged up to the reader's "
+               'CRLF->LF, for arbitrary field bytes incl. quotes, commas, CR, LF, leading blanks [csv_file_reads_back, CsvRT.parse_csvRows]; the CSV text '
+               'determines the rows byte for byte: two row lists / two streams with the same text are equal [csv_text_injective, csv_file_injective]; (JSON) '
+               "the file is '[\\n' + the record texts joined by ',\\n' + '\\n]\\n', the empty array on empty input [json_file_is_array_of_record_texts, "
+               'json_empty_input]; the whole file — nested objects, arrays, numbers, indentation — is accepted by the JSON reader (RFC 8259 white-space '
+               'stripper + strict decoder of C02, whole text consumed) as ONE array whose i-th element is the object of the i-th record: id, sequence, '
+               'qualities, annotations with maps by sorted key, for arbitrary bytes / ints / nesting [json_file_decodes, json_file_element, '
+               'json_record_fields, json_value_decodes]; every string literal written is a valid JSON string body denoting the string '
+               '[json_string_wellformed]; (paired) whatever the two arrival orders, the two files are those of the records and of their mates written in order '
+               '[paired_files_order_free], and both read back / decode to lists in which record i of file 2 is the mate of record i of file 1 '
+               '[paired_fasta_files_in_step, paired_fastq_files_in_step, paired_json_files_in_step]. The model (formatters included: FormatFastaBatch, '
+               'FormatFastqBatch, JSONRecord/FormatJSONBatch, CSVHeader/CSVRecord/FormatCVSBatch, csv.Writer quoting, %v, the second writer on PairedWith()) '
+               'is tied to the real writers by comparing the whole output (both files of a pair) byte for byte on every case, the CSV reader model is compared '
+               'with csv.Reader on every CSV output and the JSON reader model with encoding/json (canonical compact re-encoding of the decoded value) on every '
+               'JSON output.',
+ 'level_note': 'Proved for all inputs: order-freeness of every outcome, re-sequencing (all permutations/empty sets), FASTA and FASTQ parse-back of the whole '
+               'file, both outcomes on empty sequences (skip / fatal), CSV header-once + full round trip through the reader model + injectivity of the text, '
+               "JSON array framing, JSON string escaping, decode-back of the whole indented JSON file to the records' values, paired files in step "
+               '(FASTA/FASTQ/JSON; CSV through paired_files_order_free + csv_file_reads_back on each file). Partial / by construction: with skip-empty a '
+               'record with an empty sequence whose mate is not empty is left out of file 1 only — the two files of a pair fall out of step '
+               '[paired_skip_empty_out_of_step, concrete stream]; the in-step theorems assume no empty sequence (WF); the harness compares both files with the '
+               'model on such cases and does not apply the in-step oracle (reported to the lead as a candidate finding, not in the property statement). FASTQ '
+               "parse-back needs a quality offset under which no printed quality byte is an end of line (Header.ShiftOK: 33, 64, every offset 14..172) and qualities as long as the sequence. JsonRead.strip is this framework's definition of RFC 8259 insignificant "
+               'white space (trusted as a definition; tied to encoding/json on writer outputs only). NOT proved: that CsvRead.parse equals encoding/csv Reader '
+               'on inputs other than writer outputs (not needed: the reader-independent content is csv_text_injective). Not modelled: float attributes, '
+               'invalid UTF-8 (goccy substitutes U+FFFD), InterfaceToInt conversions of a non-int count/taxid, csv_auto column detection, the title-line '
+               'annotation text of FASTA/FASTQ (FormatFastSeqJsonHeader is data here, property C02), gzip (the harness decompresses the real output; order of '
+               'bytes through Wfile/bufio/pgzip is checked by comparison only), a nil mate in a paired stream. Goroutine liveness (Close protocol, the '
+               'hand-over of batches from the first to the second writer of a pair) is exercised under a watchdog, not proved. The model of JSONRecord is the '
+               'REPAIRED behaviour (notes/patches/C04-json-unescape-breaks-escapes.diff): the unrepaired code wrote raw control characters / broke an escaped '
+               'backslash followed by u (oracle json.invalid on the corpus cases with f=3). dec (strconv.Itoa) is transcribed digit by digit (natDigits), '
+               'validated on boundary integers.',
+ 'trusted_base': LEAN_TB + [
+                  'title-line annotation text of FASTA/FASTQ (FormatFastSeqJsonHeader) taken as data (C02)',
+                  'encoding/json and encoding/csv as decode-back oracles; compress/gzip to read the compressed output back',
+                  'goccy/go-json MarshalIndent layout and key order as transcribed in WriterFmt.jVal (validated by byte comparison on every JSON case)',
+                  'JsonRead.strip as the definition of insignificant white space of RFC 8259 §2 (compared with encoding/json on every JSON output); '
+                  'Json.decVal of C02 as the JSON grammar'],
  'modelled': 'WriteSeqFileChunk (seqfile_chunk_write.go), writer goroutines of WriteJSON (json_writer.go) and WriteCSV (csv_writer.go): next/received/drain '
              'loop and framing; FormatFastaBatch / FormatFastqBatch (record layout of Model/Header.lean, skipEmpty / fatal on empty sequence); JSONRecord + '
-             '_UnescapeUnicodeCharactersInJSON + FormatJSONBatch (key order, indentation, escaping); CSVHeader, CSVRecord (column selection, count/taxid defaults, '
-             'scientific_name/root/NA, definition, reserved keys id/sequence/qualities, %v rendering of strings/ints/bools/lists/maps, unclamped quality column), '
-             'csv.Writer.Write with fieldNeedsQuotes and quote doubling, FormatCVSBatch (header with batch 0 only); a model of encoding/csv Reader (CsvRead)',
+             '_UnescapeUnicodeCharactersInJSON + FormatJSONBatch (key order, indentation, escaping); CSVHeader, CSVRecord (column selection, count/taxid '
+             'defaults, scientific_name/root/NA, definition, reserved keys id/sequence/qualities, %v rendering of strings/ints/bools/lists/maps, unclamped '
+             'quality column), csv.Writer.Write with fieldNeedsQuotes and quote doubling, FormatCVSBatch (header with batch 0 only); a model of encoding/csv '
+             'Reader (CsvRead); the second writer of Write…ToFile on iterator.PairedWith() (writePaired: mates of every batch under the same batch number, own '
+             'arrival order); a JSON file reader (JsonRead: white-space stripper + decoder of C02) and the denotation toJ of an annotation tree',
  'assumptions': ['each batch number is delivered once to the writer (Contract of C03)',
                  'channel blocking and goroutine termination are runtime behaviour (watchdog only)',
                  'attribute values are strings, ints, bools, lists and string-keyed maps of these; strings are valid UTF-8',
-                 'FASTA parse-back: records well formed in the sense of C02 (WF) and the JSON library contract J.OKat of C02 for the title-line annotations']}
+                 'FASTA parse-back: records well formed in the sense of C02 (WF) and the JSON library contract J.OKat of C02 for the title-line annotations',
+                 'paired streams: every record of a paired iterator has a mate (BioSequence.PairedWith() non nil) and a batch and its batch of mates carry the '
+                 'same number',
+                 'FASTQ parse-back: quality offset with Header.ShiftOK (33, 64, 14..172); stored qualities, when present, are as long as the sequence']}
